@@ -396,4 +396,533 @@ example : [2, 0, 1].Perm (List.range exMods.length) := by decide
 example : (run exMods [2, 0, 1]).unprocessed = [] :=
   (process_terminates_drains exMods [2, 0, 1] (by decide)).1
 
+/-! ## acyclic projects: every import observes its target in its final state, in every order -/
+
+/-- the import graph is acyclic (`r` ranks every module above the modules its body asks for) and
+only names known modules -/
+structure Ranked (mods : List Mod) (r : Nat → Nat) : Prop where
+  lt : ∀ (m : Nat) (md : Mod) (t : Nat), mods[m]? = some md → t ∈ md.imports → r t < r m
+  known : ∀ (m : Nat) (md : Mod) (t : Nat), mods[m]? = some md → t ∈ md.imports → t < mods.length
+
+/-- every `sees` event reports the imported module in the state it ends in -/
+def SeesFinal (mods : List Mod) (l : List Event) : Prop :=
+  ∀ m t st, Event.sees m t st ∈ l → st = final mods t
+
+/-- still being analysed: PROCESSING although the file parses (the modules on the call stack) -/
+def Busy (mods : List Mod) (s : State) (k : Nat) : Prop :=
+  getSt s k = .processing ∧ final mods k = .processed
+
+/-- PROCESSED is only ever the state of a module whose file parses -/
+def Settled (mods : List Mod) (n : Nat) (s : State) : Prop :=
+  ∀ k, k < n → getSt s k = .processed → final mods k = .processed
+
+theorem final_cases (mods : List Mod) (k : Nat) : final mods k = .processed ∨ final mods k = .processing := by
+  unfold final
+  cases mods[k]? with
+  | none => simp
+  | some md => cases md.parses <;> simp
+
+theorem seesFinal_append {mods : List Mod} {l l' : List Event} (h : SeesFinal mods l) (h' : SeesFinal mods l') :
+    SeesFinal mods (l ++ l') := by
+  intro m t st hm
+  rcases List.mem_append.mp hm with h1 | h1
+  · exact h m t st h1
+  · exact h' m t st h1
+
+theorem busy_of_step {mods : List Mod} {n : Nat} {s s' : State} (h : Step mods n s s') {k : Nat}
+    (hb : Busy mods s' k) : Busy mods s k := by
+  by_cases hk : k ∈ s.unprocessed
+  · exfalso
+    by_cases hk' : k ∈ s'.unprocessed
+    · have := (h.inv.iff k).mp hk'
+      rw [hb.1] at this; cases this
+    · have := h.done k hk hk'
+      rw [hb.1, hb.2] at this; cases this
+  · exact ⟨(h.frame k hk) ▸ hb.1, hb.2⟩
+
+theorem settled_of_step {mods : List Mod} {n : Nat} {s s' : State} (h : Step mods n s s')
+    (hs : Settled mods n s) : Settled mods n s' := by
+  intro k hkn hk
+  by_cases hku : k ∈ s.unprocessed
+  · by_cases hk' : k ∈ s'.unprocessed
+    · have := (h.inv.iff k).mp hk'
+      rw [hk] at this; cases this
+    · have := h.done k hku hk'
+      rw [hk] at this; exact this.symm
+  · rw [h.frame k hku] at hk
+    exact hs k hkn hk
+
+def PMsees (mods : List Mod) (r : Nat → Nat) (f : Nat) : Prop :=
+  ∀ s m, Inv mods.length s → m ∈ s.unprocessed → s.unprocessed.length ≤ f → Settled mods mods.length s →
+    (∀ k, Busy mods s k → r m < r k) → SeesFinal mods s.log →
+    SeesFinal mods (processModule mods f s m).log
+
+def VBsees (mods : List Mod) (r : Nat → Nat) (f : Nat) : Prop :=
+  ∀ ts s m, Inv mods.length s → s.unprocessed.length ≤ f → Settled mods mods.length s →
+    (∀ k, Busy mods s k → k = m ∨ r m < r k) → (∀ t ∈ ts, r t < r m ∧ t < mods.length) →
+    SeesFinal mods s.log → SeesFinal mods (visitBody mods f s m ts).log
+
+theorem vbsees_of_pmsees (mods : List Mod) (r : Nat → Nat) (f : Nat) (hpm : PMsees mods r f) :
+    VBsees mods r f := by
+  intro ts
+  induction ts with
+  | nil => intro s m _ _ _ _ _ hl; simpa only [visitBody] using hl
+  | cons t ts ih =>
+    intro s m h hf hset hbusy hts hl
+    obtain ⟨hrt, htn⟩ := hts t List.mem_cons_self
+    have hts' : ∀ u ∈ ts, r u < r m ∧ u < mods.length := fun u hu => hts u (List.mem_cons_of_mem _ hu)
+    simp only [visitBody]
+    by_cases ht : getSt s t = .unprocessed
+    · have hmem : t ∈ s.unprocessed := (h.iff t).mpr ht
+      have hp := pm_all mods mods.length f s t h hmem hf
+      have hl1 := hpm s t h hmem hf hset
+        (fun k hk => by
+          rcases hbusy k hk with e | e
+          · rw [e]; exact hrt
+          · exact Nat.lt_trans hrt e) hl
+      simp only [ht, if_true]
+      have hfin : getSt (processModule mods f s t) t = final mods t := hp.1.done t hmem hp.2
+      have hlog := Step.log (mods := mods) hp.1 [Event.sees m t (getSt (processModule mods f s t) t)]
+        (by intro k; simp [starts]) (by intro k; simp)
+      have hlen : (processModule mods f s t).unprocessed.length ≤ f :=
+        Nat.le_trans hp.1.sub.length_le hf
+      refine ih _ m hlog.inv hlen (settled_of_step hlog hset)
+        (fun k hk => hbusy k (busy_of_step hlog hk)) hts' ?_
+      refine seesFinal_append hl1 ?_
+      intro a b st hm
+      simp only [List.mem_singleton, Event.sees.injEq] at hm
+      obtain ⟨_, rfl, rfl⟩ := hm
+      exact hfin
+    · simp only [ht, if_false]
+      have hlog := Step.log (mods := mods) (Step.refl h) [Event.sees m t (getSt s t)]
+        (by intro k; simp [starts]) (by intro k; simp)
+      refine ih _ m hlog.inv hf (settled_of_step hlog hset)
+        (fun k hk => hbusy k (busy_of_step hlog hk)) hts' ?_
+      refine seesFinal_append hl ?_
+      intro a b st hm
+      simp only [List.mem_singleton, Event.sees.injEq] at hm
+      obtain ⟨_, rfl, rfl⟩ := hm
+      cases hst : getSt s b with
+      | unprocessed => exact absurd hst ht
+      | processed => exact (hset b htn hst).symm
+      | processing =>
+        rcases final_cases mods b with hf' | hf'
+        · exfalso
+          rcases hbusy b ⟨hst, hf'⟩ with e | e
+          · rw [e] at hrt; exact Nat.lt_irrefl _ hrt
+          · exact Nat.lt_irrefl _ (Nat.lt_trans hrt e)
+        · exact hf'.symm
+
+theorem pmsees_succ_of_vbsees (mods : List Mod) (r : Nat → Nat) (hr : Ranked mods r) (f : Nat)
+    (hvb : VBsees mods r f) : PMsees mods r (f+1) := by
+  intro s m h hm hf hset hbusy hl
+  have hst : getSt s m = .unprocessed := (h.iff m).mp hm
+  have hmn : m < mods.length := getSt_lt h hst
+  rw [processModule_eq mods f s m hst hm]
+  have hstart : SeesFinal mods (s.log ++ [Event.start m]) :=
+    seesFinal_append hl (by intro a b st hh; simp at hh)
+  cases hmd : mods[m]? with
+  | none => exact hstart
+  | some md =>
+    simp only
+    by_cases hp : md.parses = true
+    · simp only [hp, if_true]
+      have hinv1v : Inv mods.length (addLog (enter s m) [.visit m]) :=
+        inv_addLog (inv_enter h hm hmn) _ (by intro k; simp [starts]) (by intro k; simp)
+      have hlen1 : (addLog (enter s m) [.visit m]).unprocessed.length ≤ f := by
+        show (s.unprocessed.erase m).length ≤ f
+        rw [List.length_erase_of_mem hm]; omega
+      have hget : ∀ k, getSt (addLog (enter s m) [.visit m]) k = if k = m then .processing else getSt s k :=
+        fun k => getSt_enter h hmn k
+      have hset1 : Settled mods mods.length (addLog (enter s m) [.visit m]) := by
+        intro k hkn hk
+        rw [hget k] at hk
+        by_cases hkm : k = m
+        · simp [hkm] at hk
+        · simp only [hkm, if_false] at hk; exact hset k hkn hk
+      have hbusy1 : ∀ k, Busy mods (addLog (enter s m) [.visit m]) k → k = m ∨ r m < r k := by
+        intro k hk
+        by_cases hkm : k = m
+        · exact .inl hkm
+        · refine .inr (hbusy k ⟨?_, hk.2⟩)
+          have := hk.1
+          rw [hget k] at this
+          simpa [hkm] using this
+      have hl1 : SeesFinal mods (addLog (enter s m) [.visit m]).log :=
+        seesFinal_append hstart (by intro a b st hh; simp at hh)
+      have := hvb md.imports _ m hinv1v hlen1 hset1 hbusy1
+        (fun t ht => ⟨hr.lt m md t hmd ht, hr.known m md t hmd ht⟩) hl1
+      exact seesFinal_append this (by intro a b st hh; simp at hh)
+    · have hp' : md.parses = false := by simpa using hp
+      simp only [hp', Bool.false_eq_true, if_false]
+      exact seesFinal_append hstart (by intro a b st hh; simp at hh)
+
+theorem pmsees_all (mods : List Mod) (r : Nat → Nat) (hr : Ranked mods r) : ∀ f, PMsees mods r f
+  | 0 => by
+    intro s m _ hm hf
+    have : 0 < s.unprocessed.length := List.length_pos_of_mem hm
+    omega
+  | f+1 => pmsees_succ_of_vbsees mods r hr f (vbsees_of_pmsees mods r f (pmsees_all mods r hr f))
+
+theorem process_sees (mods : List Mod) (r : Nat → Nat) (hr : Ranked mods r) :
+    ∀ f s, Inv mods.length s → s.unprocessed.length ≤ mods.length + 1 → Settled mods mods.length s →
+      (∀ k, ¬ Busy mods s k) → SeesFinal mods s.log → SeesFinal mods (process mods f s).log := by
+  intro f
+  induction f with
+  | zero => intro s _ _ _ _ hl; simpa [process] using hl
+  | succ f ih =>
+    intro s h hb hset hbusy hl
+    unfold process
+    cases hu : s.unprocessed with
+    | nil => simpa [hu] using hl
+    | cons m rest =>
+      simp only
+      have hm : m ∈ s.unprocessed := by simp [hu]
+      have hp := pm_all mods mods.length (mods.length + 1) s m h hm hb
+      have hl1 := pmsees_all mods r hr (mods.length + 1) s m h hm hb hset
+        (fun k hk => absurd hk (hbusy k)) hl
+      exact ih _ hp.1.inv (Nat.le_trans hp.1.sub.length_le hb) (settled_of_step hp.1 hset)
+        (fun k hk => hbusy k (busy_of_step hp.1 hk)) hl1
+
+/-- **acyclic_sees_final** (C06): in a project whose import graph is acyclic, whatever the order in
+which the modules are taken up, every import statement obtains its target module in the state that
+module ENDS in — fully analysed (PROCESSED), or reported as unparsable. No module body ever looks
+into a half-analysed module, which is why what it computes from its imports cannot depend on the
+order. (With an import cycle this is false: `cyclic_sees_unfinished` below.) -/
+theorem acyclic_sees_final (mods : List Mod) (r : Nat → Nat) (hr : Ranked mods r) (order : List Nat)
+    (hperm : order.Perm (List.range mods.length)) : SeesFinal mods (run mods order).log := by
+  unfold run
+  have h0 := inv_init mods.length order hperm
+  have hlen : (initState mods.length order).unprocessed.length = mods.length := by
+    show order.length = _
+    rw [hperm.length_eq]; simp
+  have hget : ∀ k, k < mods.length → getSt (initState mods.length order) k = .unprocessed := by
+    intro k hk
+    simp [getSt, initState, List.getD_eq_getElem?_getD, List.getElem?_replicate, hk]
+  refine process_sees mods r hr _ _ h0 (by omega) ?_ ?_ (by intro a b st hh; simp [initState] at hh)
+  · intro k hk hp; rw [hget k hk] at hp; cases hp
+  · intro k hb
+    by_cases hk : k < mods.length
+    · have := hb.1; rw [hget k hk] at this; cases this
+    · have := hb.1
+      simp [getSt, initState, List.getD_eq_getElem?_getD, List.getElem?_replicate, hk] at this
+
+/-- non-vacuity: an acyclic three-module project with an unparsable file, two orders -/
+def exAcyclic : List Mod := [⟨true, [1, 2]⟩, ⟨true, [2]⟩, ⟨false, []⟩]
+def exRank : Nat → Nat := fun m => 3 - m
+theorem exAcyclic_ranked : Ranked exAcyclic exRank := by
+  refine ⟨?_, ?_⟩ <;> intro m md t hm ht <;>
+    (match m, hm with
+     | 0, hm => simp [exAcyclic] at hm; subst hm; simp at ht; rcases ht with rfl | rfl <;> simp [exRank, exAcyclic]
+     | 1, hm => simp [exAcyclic] at hm; subst hm; simp at ht; subst ht; simp [exRank, exAcyclic]
+     | 2, hm => simp [exAcyclic] at hm; subst hm; simp at ht
+     | n+3, hm => simp [exAcyclic] at hm)
+example : SeesFinal exAcyclic (run exAcyclic [1, 0, 2]).log :=
+  acyclic_sees_final exAcyclic exRank exAcyclic_ranked [1, 0, 2] (by decide)
+example : Event.sees 0 2 .processing ∈ (run exAcyclic [1, 0, 2]).log := by
+  simp [run, process, processModule, visitBody, initState, getSt, setSt, exAcyclic]
+
+/-- with an import cycle a body does look into a half-analysed module, and which one does depends on
+the order: in `exMods` (0 → 1 → {2, 0}) module 1 sees module 0 PROCESSING when 0 is taken up first,
+while module 0 sees module 1 PROCESSING when 1 is taken up first -/
+theorem cyclic_sees_unfinished :
+    Event.sees 1 0 .processing ∈ (run exMods [0, 1, 2]).log ∧ final exMods 0 = .processed ∧
+    Event.sees 0 1 .processing ∈ (run exMods [1, 0, 2]).log ∧ final exMods 1 = .processed := by
+  refine ⟨?_, by decide, ?_, by decide⟩ <;>
+    simp [run, process, processModule, visitBody, initState, getSt, setSt, exMods]
+
+/-! ## what a module body observes is the same in every order -/
+
+/-- the `sees` events of importer `m`, in log order -/
+def seesOf (m : Nat) (l : List Event) : List Event :=
+  l.filter fun e => match e with | .sees a _ _ => a == m | _ => false
+
+/-- what the body of `m` observes in an acyclic project: each import, in source order, in its final state -/
+def view (mods : List Mod) (m : Nat) : List Event :=
+  match mods[m]? with
+  | some md => if md.parses then md.imports.map (fun t => Event.sees m t (final mods t)) else []
+  | none => []
+
+theorem seesOf_append (m : Nat) (l l' : List Event) : seesOf m (l ++ l') = seesOf m l ++ seesOf m l' := by
+  simp [seesOf]
+
+/-- contribution of one call to the `sees` events of `m`: its whole view if the call analysed `m` -/
+def contrib (mods : List Mod) (m : Nat) (s s' : State) : List Event :=
+  if m ∈ s.unprocessed ∧ m ∉ s'.unprocessed then view mods m else []
+
+def PMview (mods : List Mod) (r : Nat → Nat) (f : Nat) : Prop :=
+  ∀ s k, Inv mods.length s → k ∈ s.unprocessed → s.unprocessed.length ≤ f → Settled mods mods.length s →
+    (∀ j, Busy mods s j → r k < r j) →
+    ∀ m, seesOf m (processModule mods f s k).log = seesOf m s.log ++ contrib mods m s (processModule mods f s k)
+
+def VBview (mods : List Mod) (r : Nat → Nat) (f : Nat) : Prop :=
+  ∀ ts s m0, Inv mods.length s → s.unprocessed.length ≤ f → Settled mods mods.length s →
+    m0 ∉ s.unprocessed →
+    (∀ j, Busy mods s j → j = m0 ∨ r m0 < r j) → (∀ t ∈ ts, r t < r m0 ∧ t < mods.length) →
+    ∀ m, seesOf m (visitBody mods f s m0 ts).log = seesOf m s.log ++
+      (if m = m0 then ts.map (fun t => Event.sees m0 t (final mods t))
+       else contrib mods m s (visitBody mods f s m0 ts))
+
+theorem seesOf_single (m a t : Nat) (st : PState) :
+    seesOf m [Event.sees a t st] = if m = a then [Event.sees a t st] else [] := by
+  by_cases h : a = m
+  · subst h; simp [seesOf]
+  · have h' : ¬ m = a := fun e => h e.symm
+    simp [seesOf, h, h']
+
+theorem vbview_of_pmview (mods : List Mod) (r : Nat → Nat) (f : Nat) (hpm : PMview mods r f) :
+    VBview mods r f := by
+  intro ts
+  induction ts with
+  | nil =>
+    intro s m0 _ _ _ _ _ _ m
+    simp only [visitBody, List.map_nil]
+    by_cases hm : m = m0
+    · simp [hm]
+    · simp [hm, contrib]
+  | cons t ts ih =>
+    intro s m0 h hf hset hm0 hbusy hts m
+    obtain ⟨hrt, htn⟩ := hts t List.mem_cons_self
+    have hts' : ∀ u ∈ ts, r u < r m0 ∧ u < mods.length := fun u hu => hts u (List.mem_cons_of_mem _ hu)
+    simp only [visitBody]
+    by_cases ht : getSt s t = .unprocessed
+    · have hmem : t ∈ s.unprocessed := (h.iff t).mpr ht
+      have hp := pm_all mods mods.length f s t h hmem hf
+      have hv1 := hpm s t h hmem hf hset
+        (fun j hj => by
+          rcases hbusy j hj with e | e
+          · rw [e]; exact hrt
+          · exact Nat.lt_trans hrt e) m
+      simp only [ht, if_true]
+      have hfin : getSt (processModule mods f s t) t = final mods t := hp.1.done t hmem hp.2
+      have hlog := Step.log (mods := mods) hp.1 [Event.sees m0 t (getSt (processModule mods f s t) t)]
+        (by intro k; simp [starts]) (by intro k; simp)
+      have hlen : (processModule mods f s t).unprocessed.length ≤ f :=
+        Nat.le_trans hp.1.sub.length_le hf
+      have hm0' : m0 ∉ (processModule mods f s t).unprocessed := fun hh => hm0 (hp.1.sub.subset hh)
+      have hrest := ih _ m0 hlog.inv hlen (settled_of_step hlog hset) hm0'
+        (fun j hj => hbusy j (busy_of_step hlog hj)) hts' m
+      rw [hrest]
+      show seesOf m ((processModule mods f s t).log ++ [Event.sees m0 t (getSt (processModule mods f s t) t)]) ++ _ = _
+      rw [seesOf_append, hv1, hfin, seesOf_single]
+      generalize hS' : visitBody mods f
+        { (processModule mods f s t) with log := (processModule mods f s t).log ++ [Event.sees m0 t (final mods t)] } m0 ts = S'
+      have hsub' : S'.unprocessed.Sublist (processModule mods f s t).unprocessed := by
+        have := (vb_of_pm mods mods.length f (pm_all mods mods.length f) ts _ m0 hlog.inv hlen).sub
+        rw [hfin] at this; rw [← hS']; exact this
+      by_cases hm : m = m0
+      · subst hm
+        have : contrib mods m s (processModule mods f s t) = [] := by simp [contrib, hm0]
+        simp [this]
+      · simp only [hm, if_false, List.append_nil]
+        simp only [contrib]
+        by_cases h1 : m ∈ s.unprocessed
+        · by_cases h2 : m ∈ (processModule mods f s t).unprocessed
+          · simp [h1, h2]
+          · have h3 : m ∉ S'.unprocessed := fun hh => h2 (hsub'.subset hh)
+            simp [h1, h2, h3]
+        · have h2 : m ∉ (processModule mods f s t).unprocessed := fun hh => h1 (hp.1.sub.subset hh)
+          simp [h1, h2]
+    · simp only [ht, if_false]
+      have hlog := Step.log (mods := mods) (Step.refl h) [Event.sees m0 t (getSt s t)]
+        (by intro k; simp [starts]) (by intro k; simp)
+      have hfin : getSt s t = final mods t := by
+        cases hst : getSt s t with
+        | unprocessed => exact absurd hst ht
+        | processed => exact (hset t htn hst).symm
+        | processing =>
+          rcases final_cases mods t with hf' | hf'
+          · exfalso
+            rcases hbusy t ⟨hst, hf'⟩ with e | e
+            · rw [e] at hrt; exact Nat.lt_irrefl _ hrt
+            · exact Nat.lt_irrefl _ (Nat.lt_trans hrt e)
+          · exact hf'.symm
+      have hrest := ih _ m0 hlog.inv hf (settled_of_step hlog hset) hm0
+        (fun j hj => hbusy j (busy_of_step hlog hj)) hts' m
+      rw [hrest]
+      show seesOf m (s.log ++ [Event.sees m0 t (getSt s t)]) ++ _ = _
+      rw [seesOf_append, hfin, seesOf_single]
+      by_cases hm : m = m0
+      · subst hm; simp
+      · simp only [hm, if_false, List.append_nil]
+        rfl
+
+theorem pmview_succ_of_vbview (mods : List Mod) (r : Nat → Nat) (hr : Ranked mods r) (f : Nat)
+    (hvb : VBview mods r f) : PMview mods r (f+1) := by
+  intro s k h hk hf hset hbusy m
+  have hst : getSt s k = .unprocessed := (h.iff k).mp hk
+  have hkn : k < mods.length := getSt_lt h hst
+  have hk1 : k ∉ (enter s k).unprocessed := by rw [mem_enter h.nodup]; simp
+  rw [processModule_eq mods f s k hst hk]
+  have hnostart : seesOf m (s.log ++ [Event.start k]) = seesOf m s.log := by
+    rw [seesOf_append]; simp [seesOf]
+  cases hmd : mods[k]? with
+  | none =>
+    show seesOf m (s.log ++ [Event.start k]) = _
+    rw [hnostart]
+    simp only [contrib]
+    by_cases hmk : m = k
+    · subst hmk; simp [view, hmd]
+    · have : ¬ (m ∈ s.unprocessed ∧ m ∉ (enter s k).unprocessed) := by
+        rw [mem_enter h.nodup]; simp [hmk]
+      simp [this]
+  | some md =>
+    simp only
+    by_cases hp : md.parses = true
+    · simp only [hp, if_true]
+      have hinv1v : Inv mods.length (addLog (enter s k) [.visit k]) :=
+        inv_addLog (inv_enter h hk hkn) _ (by intro j; simp [starts]) (by intro j; simp)
+      have hlen1 : (addLog (enter s k) [.visit k]).unprocessed.length ≤ f := by
+        show (s.unprocessed.erase k).length ≤ f
+        rw [List.length_erase_of_mem hk]; omega
+      have hget : ∀ j, getSt (addLog (enter s k) [.visit k]) j = if j = k then .processing else getSt s j :=
+        fun j => getSt_enter h hkn j
+      have hset1 : Settled mods mods.length (addLog (enter s k) [.visit k]) := by
+        intro j hjn hj
+        rw [hget j] at hj
+        by_cases hjk : j = k
+        · simp [hjk] at hj
+        · simp only [hjk, if_false] at hj; exact hset j hjn hj
+      have hbusy1 : ∀ j, Busy mods (addLog (enter s k) [.visit k]) j → j = k ∨ r k < r j := by
+        intro j hj
+        by_cases hjk : j = k
+        · exact .inl hjk
+        · refine .inr (hbusy j ⟨?_, hj.2⟩)
+          have := hj.1
+          rw [hget j] at this
+          simpa [hjk] using this
+      have hv := hvb md.imports _ k hinv1v hlen1 hset1 hk1 hbusy1
+        (fun t ht => ⟨hr.lt k md t hmd ht, hr.known k md t hmd ht⟩) m
+      show seesOf m ((visitBody mods f (addLog (enter s k) [.visit k]) k md.imports).log ++ [Event.finish k]) = _
+      rw [seesOf_append, hv]
+      have h0 : seesOf m (addLog (enter s k) [.visit k]).log = seesOf m s.log := by
+        show seesOf m ((s.log ++ [Event.start k]) ++ [Event.visit k]) = _
+        rw [seesOf_append, hnostart]; simp [seesOf]
+      rw [h0]
+      have hfinish : seesOf m [Event.finish k] = [] := by simp [seesOf]
+      rw [hfinish, List.append_nil]
+      congr 1
+      generalize hS2 : visitBody mods f (addLog (enter s k) [.visit k]) k md.imports = s2
+      have hsub2 : s2.unprocessed.Sublist (enter s k).unprocessed := by
+        have := (vb_of_pm mods mods.length f (pm_all mods mods.length f) md.imports _ k hinv1v hlen1).sub
+        rw [← hS2]; exact this
+      by_cases hmk : m = k
+      · subst hmk
+        have hk2 : m ∉ s2.unprocessed := fun hh => hk1 (hsub2.subset hh)
+        simp [contrib, leave, hk, hk2, view, hmd, hp]
+      · simp only [hmk, if_false, contrib]
+        have hiff : m ∈ (addLog (enter s k) [.visit k]).unprocessed ↔ m ∈ s.unprocessed := by
+          show m ∈ (enter s k).unprocessed ↔ _
+          rw [mem_enter h.nodup]; simp [hmk]
+        by_cases hc : m ∈ s.unprocessed ∧ m ∉ s2.unprocessed
+        · have hc' : m ∈ (addLog (enter s k) [.visit k]).unprocessed ∧ m ∉ (leave s2 k).unprocessed :=
+            ⟨hiff.mpr hc.1, hc.2⟩
+          have hc'' : m ∈ (addLog (enter s k) [.visit k]).unprocessed ∧ m ∉ s2.unprocessed := ⟨hiff.mpr hc.1, hc.2⟩
+          rw [if_pos hc'', if_pos (show m ∈ s.unprocessed ∧ m ∉ (leave s2 k).unprocessed from hc)]
+        · have hc'' : ¬ (m ∈ (addLog (enter s k) [.visit k]).unprocessed ∧ m ∉ s2.unprocessed) :=
+            fun hh => hc ⟨hiff.mp hh.1, hh.2⟩
+          rw [if_neg hc'', if_neg (show ¬ (m ∈ s.unprocessed ∧ m ∉ (leave s2 k).unprocessed) from hc)]
+    · have hp' : md.parses = false := by simpa using hp
+      simp only [hp', Bool.false_eq_true, if_false]
+      show seesOf m ((s.log ++ [Event.start k]) ++ [Event.parseError k]) = _
+      rw [seesOf_append, hnostart]
+      have : seesOf m [Event.parseError k] = [] := by simp [seesOf]
+      rw [this, List.append_nil]
+      simp only [contrib]
+      by_cases hmk : m = k
+      · subst hmk; simp [view, hmd, hp']
+      · have : ¬ (m ∈ s.unprocessed ∧ m ∉ (addLog (enter s k) [Event.parseError k]).unprocessed) := by
+          show ¬ (m ∈ s.unprocessed ∧ m ∉ (enter s k).unprocessed)
+          rw [mem_enter h.nodup]; simp [hmk]
+        simp [this]
+
+theorem pmview_all (mods : List Mod) (r : Nat → Nat) (hr : Ranked mods r) : ∀ f, PMview mods r f
+  | 0 => by
+    intro s k _ hk hf
+    have : 0 < s.unprocessed.length := List.length_pos_of_mem hk
+    omega
+  | f+1 => pmview_succ_of_vbview mods r hr f (vbview_of_pmview mods r f (pmview_all mods r hr f))
+
+theorem process_view (mods : List Mod) (r : Nat → Nat) (hr : Ranked mods r) :
+    ∀ f s, Inv mods.length s → s.unprocessed.length ≤ f → s.unprocessed.length ≤ mods.length + 1 →
+      Settled mods mods.length s → (∀ k, ¬ Busy mods s k) →
+      ∀ m, seesOf m (process mods f s).log = seesOf m s.log ++ (if m ∈ s.unprocessed then view mods m else []) := by
+  intro f
+  induction f with
+  | zero =>
+    intro s _ hf _ _ _ m
+    have : s.unprocessed = [] := List.eq_nil_of_length_eq_zero (by omega)
+    simp [process, this]
+  | succ f ih =>
+    intro s h hf hb hset hbusy m
+    unfold process
+    cases hu : s.unprocessed with
+    | nil => simp
+    | cons k rest =>
+      simp only
+      have hk : k ∈ s.unprocessed := by simp [hu]
+      have hp := pm_all mods mods.length (mods.length + 1) s k h hk hb
+      have hv := pmview_all mods r hr (mods.length + 1) s k h hk hb hset
+        (fun j hj => absurd hj (hbusy j)) m
+      have hlt : (processModule mods (mods.length + 1) s k).unprocessed.length < s.unprocessed.length := by
+        rcases Nat.lt_or_ge (processModule mods (mods.length + 1) s k).unprocessed.length s.unprocessed.length with h1 | h1
+        · exact h1
+        · have := hp.1.sub.eq_of_length_le h1
+          have hne := hp.2
+          rw [this] at hne; exact absurd hk hne
+      have hrest := ih _ hp.1.inv (by omega) (by omega) (settled_of_step hp.1 hset)
+        (fun j hj => hbusy j (busy_of_step hp.1 hj)) m
+      rw [hrest, hv, List.append_assoc]
+      congr 1
+      have hmem : (m ∈ k :: rest) ↔ m ∈ s.unprocessed := by rw [hu]
+      simp only [contrib]
+      by_cases h1 : m ∈ s.unprocessed
+      · by_cases h2 : m ∈ (processModule mods (mods.length + 1) s k).unprocessed
+        · simp [h1, h2, hmem.mpr h1]
+        · simp [h1, h2, hmem.mpr h1]
+      · have h2 : m ∉ (processModule mods (mods.length + 1) s k).unprocessed := fun hh => h1 (hp.1.sub.subset hh)
+        have h3 : ¬ (m ∈ k :: rest) := fun hh => h1 (hmem.mp hh)
+        simp [h1, h2, h3]
+
+/-- **body_view_acyclic** (C06): in an acyclic project, under every order, the sequence of things the
+body of module `m` obtains from its import statements is exactly: each imported module, in source
+order, in its final state -/
+theorem body_view_acyclic (mods : List Mod) (r : Nat → Nat) (hr : Ranked mods r) (order : List Nat)
+    (hperm : order.Perm (List.range mods.length)) (m : Nat) (hm : m < mods.length) :
+    seesOf m (run mods order).log = view mods m := by
+  unfold run
+  have h0 := inv_init mods.length order hperm
+  have hlen : (initState mods.length order).unprocessed.length = mods.length := by
+    show order.length = _
+    rw [hperm.length_eq]; simp
+  have hget : ∀ k, k < mods.length → getSt (initState mods.length order) k = .unprocessed := by
+    intro k hk
+    simp [getSt, initState, List.getD_eq_getElem?_getD, List.getElem?_replicate, hk]
+  have hin : m ∈ (initState mods.length order).unprocessed := by
+    show m ∈ order
+    rw [hperm.mem_iff]; simpa using hm
+  have := process_view mods r hr (mods.length + 1) _ h0 (by omega) (by omega)
+    (by intro k hk hp; rw [hget k hk] at hp; cases hp)
+    (by
+      intro k hb
+      by_cases hk : k < mods.length
+      · have := hb.1; rw [hget k hk] at this; cases this
+      · have := hb.1
+        simp [getSt, initState, List.getD_eq_getElem?_getD, List.getElem?_replicate, hk] at this) m
+  rw [this]
+  have hin' : m ∈ order := hin
+  simp [hin', initState, seesOf]
+
+/-- **body_view_order_independent** (C06): what each module body observes through its imports does not
+depend on the order in which the modules of an acyclic project are taken up -/
+theorem body_view_order_independent (mods : List Mod) (r : Nat → Nat) (hr : Ranked mods r)
+    (o1 o2 : List Nat) (h1 : o1.Perm (List.range mods.length)) (h2 : o2.Perm (List.range mods.length))
+    (m : Nat) (hm : m < mods.length) :
+    seesOf m (run mods o1).log = seesOf m (run mods o2).log := by
+  rw [body_view_acyclic mods r hr o1 h1 m hm, body_view_acyclic mods r hr o2 h2 m hm]
+
+example : seesOf 0 (run exAcyclic [1, 0, 2]).log = [Event.sees 0 1 .processed, Event.sees 0 2 .processing] := by
+  rw [body_view_acyclic exAcyclic exRank exAcyclic_ranked [1, 0, 2] (by decide) 0 (by decide)]
+  decide
+
 end Schedule
